@@ -14,7 +14,10 @@ import random
 
 from ..core import Ctx, digest
 from ..forkpool import prepare_imports, run_cases
-from ..lattice import ORIGIN0, EMBEDDINGS, EXACT, OffLattice
+from ..lattice import ORIGIN0 as _O0, EMBEDDINGS, EXACT, OffLattice
+
+# seven origin-0 embeddings plus the small-magnitude one (1e-6 units: FRAME's area tolerance exceeds small overlaps there)
+ORIGIN0 = _O0 + ["micro"]
 from .. import tlc
 from .die_common import random_description
 
@@ -39,6 +42,21 @@ def build_netlist(emb, mods):
     return {"Modules": out, "Nets": []}
 
 
+def observe_alloc(emb, a):
+    obs = []
+    for ra in a.allocations:
+        rect = emb.back_rectangle(ra.rect)
+        area = (rect[2] - rect[0]) * (rect[3] - rect[1])
+        ents = []
+        for name, v in ra.alloc.items():
+            k = round(v * area)
+            if abs(v * area - k) > 1e-6 * max(1.0, area):
+                raise OffLattice(f"ratio {v!r} of {name} in cell {rect} is not covered/area on the lattice")
+            ents.append([int(name[1:]), k])
+        obs.append(rect + [int(bool(ra.rect.fixed)), sorted(ents)])
+    return obs
+
+
 def run_case(case):
     from frame.geometry.geometry import Rectangle
     from frame.die.die import Die
@@ -55,6 +73,9 @@ def run_case(case):
                 ddict["regions"] = regions
             try:
                 net = Netlist(build_netlist(emb, case["mods"]))
+                for j in case.get("release", []):
+                    # a fixed module released through the API before the die is built: it is then an ordinary hard module
+                    net.get_module(f"N{j + 1}").is_fixed = False
                 die = Die(ddict, net)
                 pre = case.get("pre")
                 if pre:
@@ -77,19 +98,27 @@ def run_case(case):
                 t["obs"] = []
                 res[en] = t
                 continue
-            obs = []
-            for ra in a.allocations:
-                rect = emb.back_rectangle(ra.rect)
-                area = (rect[2] - rect[0]) * (rect[3] - rect[1])
-                ents = []
-                for name, v in ra.alloc.items():
-                    k = round(v * area)
-                    if abs(v * area - k) > 1e-6 * max(1.0, area):
-                        raise OffLattice(f"ratio {v!r} of {name} in cell {rect} is not covered/area on the lattice")
-                    ents.append([int(name[1:]), k])
-                obs.append(rect + [int(bool(ra.rect.fixed)), sorted(ents)])
-            t["obs"] = obs
+            t["obs"] = observe_alloc(emb, a)
             res[en] = t
+            mv = case.get("move")
+            if mv:
+                # history on the live objects: a hard module is moved through the API (centre + recenter_rectangles, in
+                # place) and the netlist is allocated again on the same die: the second allocation is for the NEW position
+                from frame.geometry.geometry import Point
+                i, dx, dy = mv
+                m = net.get_module(f"N{i + 1}")
+                t2 = {"refinable": t["refinable"], "fixedcells": t["fixedcells"]}
+                try:
+                    m.center = Point(m.center.x + emb.length(dx), m.center.y + emb.length(dy))
+                    m.recenter_rectangles()
+                    a2 = create_initial_allocation(die, bool(case["zero"]))
+                    t2["ok"] = 1
+                    t2["obs"] = observe_alloc(emb, a2)
+                except OffLattice:
+                    raise
+                except Exception as e:
+                    t2.update(ok=0, why=f"{type(e).__name__}: {e}"[:160], obs=[])
+                res[en + "+moved"] = t2
         except OffLattice as e:
             res[en] = {"off": str(e)}
     return res
@@ -170,7 +199,16 @@ def random_case(rng: random.Random):
     for t in regs:
         if t[4] == "F":
             mods.append(["fixed", [t[:4]]])
-    return {"dw": W, "dh": H, "regs": regs, "mods": mods, "zero": rng.randint(0, 1), "embs": list(ORIGIN0)}
+    case = {"dw": W, "dh": H, "regs": regs, "mods": mods, "zero": rng.randint(0, 1), "embs": list(ORIGIN0)}
+    hard = [i for i, m in enumerate(mods) if m[0] == "hard"]
+    if hard and rng.random() < 0.5:
+        i = rng.choice(hard)
+        x0 = min(r[0] for r in mods[i][1]); y0 = min(r[1] for r in mods[i][1])
+        case["move"] = [i, 8 * rng.randint(-(x0 // 8), 12), 8 * rng.randint(-(y0 // 8), 12)]
+    fixed = [i for i, m in enumerate(mods) if m[0] == "fixed"]
+    if fixed and rng.random() < 0.3:
+        case["release"] = [rng.choice(fixed)]
+    return case
 
 
 def decide(ctx: Ctx, cases):
@@ -192,13 +230,21 @@ def decide(ctx: Ctx, cases):
                 ctx.violation("off_lattice", {"case": c, "embedding": en}, t, {"embedding": en})
                 continue
             why = t.pop("why", None)
-            tr = {"zero": c["zero"], "mods": c["mods"], "exact": int(en in EXACT), **t}
+            mods = [list(m) for m in c["mods"]]
+            for j in c.get("release", []):
+                mods[j] = ["hard", mods[j][1]]
+            base_en = en.split("+")[0]
+            if en.endswith("+moved"):
+                i, dx, dy = c["move"]
+                mods[i] = [mods[i][0], [[r[0] + dx, r[1] + dy, r[2] + dx, r[3] + dy] for r in mods[i][1]]]
+            tr = {"zero": c["zero"], "mods": mods, "exact": int(base_en in EXACT), **t}
             key = digest(tr)
             if key not in traces:
                 tr["id"] = key
                 traces[key] = tr
-                owners[key] = {"embs": [], "why": why, "case": c}
-            owners[key]["embs"].append(en)
+                owners[key] = {"embs": [], "why": why, "case": c, "moved": False}
+            owners[key]["embs"].append(base_en)
+            owners[key]["moved"] = en.endswith("+moved")
     ctx.extra["die_or_netlist_rejected"] = setup_fail
     verdicts = tlc.validate_traces(ctx, "InitAllocTrace", "InitAllocTrace", list(traces.values()), chunk=3000)
     for key, v in verdicts.items():
@@ -211,7 +257,10 @@ def decide(ctx: Ctx, cases):
             feats = {"clause": clause, "zero": c["zero"], "raised": t["ok"] == 0,
                      "why": (owners[key]["why"] or "").split(":")[0],
                      "some_module_touches_no_cell": not all(covers_refinable(c, i) for i in movable)}
+            feats["after_move"] = owners[key]["moved"]
+            feats["released_fixed"] = bool(c.get("release"))
             ctx.violation(clause, {**{k: c[k] for k in ("dw", "dh", "regs", "mods", "zero")}, "pre": c.get("pre"),
+                                   "move": c.get("move"), "release": c.get("release"),
                                    "embeddings": owners[key]["embs"]},
                           {"observed": {k: t[k] for k in ("ok", "refinable", "fixedcells", "obs")}, "why": owners[key]["why"]}, feats)
     for t in list(traces.values())[:2]:
@@ -223,8 +272,9 @@ def run(ctx: Ctx) -> int:
         rec = json.load(open(ctx.replay))["case"]
         case = {k: rec[k] for k in ("dw", "dh", "regs", "mods", "zero")}
         case["embs"] = rec.get("embeddings", ORIGIN0)
-        if rec.get("pre"):
-            case["pre"] = rec["pre"]
+        for k in ("pre", "move", "release"):
+            if rec.get(k):
+                case[k] = rec[k]
         decide(ctx, [case])
         return ctx.finish("model_checking", "replay of one recorded case")
     tier = ctx.tier
